@@ -830,7 +830,10 @@ func evalDataCondition(c *query.DataCondition, s *Stream) (bool, error) {
 	}
 	srcs := s.sourcesFor(c.Elements[0].ConverterName)
 	if len(srcs) == 0 {
-		return c.Inverted, nil
+		// nothing to search: a lone negated filter holds, a sequence ending in a negated
+		// element does not (its positive head cannot be found), as on a representation
+		// that exists but lacks the head
+		return c.Inverted && len(c.Elements) == 1, nil
 	}
 	succ, fail := 0, 0
 	for _, runs := range srcs {
